@@ -572,6 +572,40 @@ int main(int argc, char** argv)
             });
             continue;
         }
+        if (prog == "burst")
+        {
+            // one parent task spawns a burst of children in a tight loop: far more staged tasks in one queue than a
+            // worker converts (or steals) in one batch (64 / 32 per batch in the schedulers of this tree)
+            ext.emplace_back([=] {
+                rng rr{es};
+                long id = new_task_id();
+                int const n = 150 + 25 * size;
+                std::uint64_t cs = rr.next();
+                ex::start_detached(ex::schedule(ex::thread_pool_scheduler{}) | ex::then([=] {
+                    rng r2{cs};
+                    body_guard g(id);
+                    for (int k = 0; k < n; ++k)
+                    {
+                        long cid = new_task_id();
+                        auto s = ex::thread_pool_scheduler{};
+                        bool const high = r2.below(8) == 0;
+                        bool const yields = r2.below(16) == 0;
+                        auto body = [cid, yields] {
+                            body_guard cg(cid);
+                            if (yields)
+                            {
+                                cg.pause();
+                                pika::this_thread::yield();
+                                cg.resume_();
+                            }
+                        };
+                        if (high) ex::start_detached(ex::schedule(ex::with_priority(s, pika::execution::thread_priority::high)) | ex::then(body));
+                        else ex::start_detached(ex::schedule(s) | ex::then(body));
+                    }
+                }));
+            });
+            continue;
+        }
         ext.emplace_back([=] {
             rng rr{es};
             for (int i = 0; i < roots; ++i) spawn(rr.next(), 0, maxdepth, width);
